@@ -33,7 +33,8 @@ class Run:
         d = os.path.join(env.BUILD, "replays")
         os.makedirs(d, exist_ok=True)
         self._n += 1
-        return os.path.join(d, "%s-%s-%d-%d.json" % (self.prop, self.tier, self.seed, self._n))
+        # the pid keeps concurrent runs of the same check (e.g. against different VERIF_REPOs) apart
+        return os.path.join(d, "%s-%s-%d-p%d-%d.json" % (self.prop, self.tier, self.seed, os.getpid(), self._n))
 
     def violation(self, replay, no_input=False):
         """replay: JSON-serialisable description (failing input, or the theorem /
